@@ -36,7 +36,8 @@ collapse_slice_rule / collapse_slice2_rule  -- Slice(x, starts, ends, axes, step
   output; number of sliced axes 1..rank; per axis start in {0 (mostly), 1, -dim, -1}, end in {dim, dim+1, dim-1, 1, INT64_MAX,
   INT32_MAX, -1}, step in {1 (mostly), -1, 2}, full reverse (start -1, end INT64_MIN, step -1); axes non-negative or negative;
   index dtype int64 / int32; starts/ends/axes/steps each as Constant node / initializer / overridable initializer; 3-, 4- and
-  5-input forms (only the 5-input form can match); slice output consumed by a further node (so that it carries value_info in
+  5-input forms (only the 5-input form can match), axes omitted ("") with steps present; graph outputs declared with static
+  shapes or rank only; slice output consumed by a further node (so that it carries value_info in
   2 of 3 assemblies) or directly a graph output (rank-only annotation).
   NOT enumerated: duplicate axes (invalid), step 0 (invalid), zero-size dims, steps/ends that are computed at run time.
 
@@ -118,14 +119,20 @@ _MM_I = [0, 1, -1, 2, -2, 3, 6, -3, 100, -100]
 def _mm_const(g, x, state):
     """One 'constant' operand of a Min/Max node.  Returns Val."""
     dt = x.dtype
-    kind = g.pick(["const"] * 12 + ["input", "computed"])
+    clean = state["clean"]
+    kind = "const" if clean else g.pick(["const"] * 10 + ["input", "computed"])
     pool = _MM_F if dt.kind == "f" else _MM_I if dt.kind == "i" else [abs(v) for v in _MM_I]
     rng = state["rng"]
     val = pool[int(rng.integers(len(pool)))]
+    if state.get("cap") is not None and g.chance(7):
+        # second node of Max(Min(x, ub), lb): mostly keep lb <= ub (the rule's side condition), sometimes not
+        ok = [v for v in pool if v <= state["cap"]] or [min(pool)]
+        val = ok[int(rng.integers(len(ok)))]
     if dt.kind == "f" and _rare(g, 1, 20):
         val = g.pick([np.inf, -np.inf])
         state["tags"].add("inf")
-    shp_kind = g.pick(["scalar"] * 6 + ["one", "one", "oneone", "rank+1", "vector", "full"])
+    state["vals"].append(val)
+    shp_kind = g.pick(["scalar"] * 6 + ["one", "one", "oneone", "rank+1"] + ([] if clean else ["vector", "vector", "full", "full"]))
     if shp_kind == "scalar":
         shape = ()
     elif shp_kind == "one":
@@ -153,7 +160,7 @@ def _mm_const(g, x, state):
         r = g.emit("Identity", [c])
         state["tags"].add("nonconst_computed")
         return r[0] if r else c
-    how = g.pick(["node", "node", "init", "init", "ovinit"])
+    how = g.pick(["node", "init"] if clean else ["node", "init", "ovinit"])
     state["hows"].add(how)
     return g.const_array(arr, how=how)
 
@@ -162,12 +169,16 @@ def _minmax(g, prefer):
     rng = np.random.default_rng(g.seed())  # drawn first: constant VALUES are a function of this seed
     op1, op2 = prefer if g.chance(8) else (g.pick(["Min", "Max"]), g.pick(["Min", "Max"]))
     x = _x(g, [F32, F32, F32, F32, F64, F64, I64, I64, I32, I32, F16, I8, U8])
-    state = {"tags": set(), "shapes": set(), "hows": set(), "rng": rng}
-    n1 = g.pick([2, 2, 2, 2, 1, 3])
-    n2 = g.pick([2, 2, 2, 2, 1, 3])
+    # "clean" profile: all operands true constants of size 1 (what the Clip fusions require); otherwise everything is free
+    clean = g.chance(5)
+    state = {"tags": set(), "shapes": set(), "hows": set(), "rng": rng, "clean": clean, "vals": [], "cap": None}
+    n1 = g.pick([2, 2, 2, 3] if clean else [2, 2, 1, 3, 2])
+    n2 = g.pick([2, 2, 2, 3] if clean else [2, 2, 1, 3, 2])
     c1 = [_mm_const(g, x, state) for _ in range(n1 - 1)]
+    if (op1, op2) == ("Min", "Max") and state["vals"]:
+        state["cap"] = min(state["vals"])
     ins1 = [x] + c1
-    if c1 and _rare(g, 1):
+    if c1 and not clean and _rare(g, 1):
         ins1 = c1[:1] + [x] + c1[1:]  # x as second operand
         state["tags"].add("x_second")
     r1 = g.emit(op1, ins1)
@@ -175,7 +186,7 @@ def _minmax(g, prefer):
         return None
     c2 = [_mm_const(g, r1[0], state) for _ in range(n2 - 1)]
     ins2 = [r1[0]] + c2
-    if c2 and _rare(g, 1):
+    if c2 and not clean and _rare(g, 1):
         ins2 = c2[:1] + [r1[0]] + c2[1:]
         state["tags"].add("inner_second")
     r2 = g.emit(op2, ins2)
@@ -193,7 +204,13 @@ def _minmax(g, prefer):
         g.features.add(f"{tag}:{s}")
     if not state["tags"] - {"inf"}:
         g.features.add(f"{tag}:all_const")
-    return _finish(g, r2, r1[0])
+    if clean:
+        g.features.add(f"{tag}:clean_profile")
+    if op1 != op2 and n1 > 1 and n2 > 1:
+        v1, v2 = state["vals"][: n1 - 1], state["vals"][n1 - 1:]
+        lb, ub = (max(v2), min(v1)) if op1 == "Min" else (max(v1), min(v2))
+        g.features.add(f"{tag}:{'lb_gt_ub' if lb > ub else 'lb_le_ub'}")
+    return _finish(g, r2, r1[0], p_inner=1 if clean else 3)
 
 
 @register("min_min_rule")
@@ -227,7 +244,7 @@ def _clip_bound(g, dt, state):
     if dt.kind == "u":
         val = abs(val)
     arr = np.asarray(val, dtype=dt)
-    how = g.pick(["node"] * 5 + ["init"] * 5 + ["ovinit", "input", "computed"])
+    how = g.pick(["init", "node"]) if state["clean"] else g.pick(["node"] * 4 + ["init"] * 4 + ["ovinit", "input", "computed"])
     state["bounds"].append(float(val))
     if how == "input":
         v = g.add_input(dt, (), style="smallint")
@@ -291,7 +308,7 @@ def _reluclip(g, prefer):
     if dt != F32 and g.opset < 11:
         dt = np.dtype(F32)
     x = _x(g, [dt])
-    state = {"tags": set(), "forms": [], "bounds": [], "rng": rng}
+    state = {"tags": set(), "forms": [], "bounds": [], "rng": rng, "clean": g.chance(5)}
     cur, inner = x, None
     for i, op in enumerate(ops):
         r = g.emit("Relu", [cur]) if op == "Relu" else _clip(g, cur, state, old_form)
@@ -315,7 +332,7 @@ def _reluclip(g, prefer):
         g.features.add(f"{tag}:negative_bound")
     if not state["tags"] - {"inverted"}:
         g.features.add(f"{tag}:all_const")
-    return _finish(g, [cur], inner)
+    return _finish(g, [cur], inner, p_inner=1 if state["clean"] else 3)
 
 
 @register("successive_relu_rule")
@@ -339,6 +356,7 @@ def host_relu_clip(g):
 
 
 # ------------------------------------------------------------------------------------------------ Cast(ConstantOfShape)
+_ENABLE_STRING = True  # to=STRING: the rule builds a STRING tensor holding a python number (unserialisable result)
 _COS_DT = [np.dtype(n) for n in ("float32", "float64", "float16", "int8", "int16", "int32", "int64", "uint8", "uint16", "uint32", "uint64", "bool")]
 
 
@@ -412,11 +430,9 @@ def _cast_cos(g, prefer_value):
         with np.errstate(all="ignore"):
             attrs["value"] = numpy_helper.from_array(np.full(vshape, v, dtype=src), name="value")
     # ---- target type
-    targets = list(_COS_DT) + [None] + ([] if g.opset < 13 else ["bfloat16"])
+    targets = list(_COS_DT) + ([None] if _ENABLE_STRING else []) + ["bfloat16"]
     to = g.pick(targets)
     if to == "bfloat16":
-        if src.kind == "f" and not np.isfinite(float(v)) and not np.isnan(float(v)) and False:
-            return None
         to_enum, to_name = TensorProto.BFLOAT16, "bfloat16"
     elif to is None:
         if not _cast_defined(v, src, None):
@@ -482,7 +498,7 @@ def _slice(g, flavour):
     cls = set()
     for a in axes:
         d = x.shape[a]
-        mode = g.pick(["full"] * 7 + ["start", "short", "step", "reverse"])
+        mode = g.pick(["full"] * (12 if flavour == 2 else 7) + ["start", "short", "step", "reverse"])
         if mode == "full":
             s, st = 0, 1
             e = g.pick([d, d, d + 1, d + 5, INT64_MAX, INT64_MAX, 2**31 - 1])
@@ -528,6 +544,9 @@ def _slice(g, flavour):
             ins.append(c(axes))
             n_in = 4
         cls.add(f"inputs{n_in}")
+    elif default_axes and not neg_axes and _rare(g, 1):
+        ins += [None, c(steps)]  # axes omitted (""), steps given: axes default to 0..k-1
+        cls.add("axes_omitted")
     else:
         ins += [c(axes), c(steps)]
     r = g.emit("Slice", ins)
@@ -540,7 +559,7 @@ def _slice(g, flavour):
     if r[0].shape == x.shape:
         g.features.add(f"{tag}:same_shape")
     # consumer: gives the slice output a value_info entry in the 'sample' / 'infer' assemblies
-    _static_outputs(g, tag)
+    _static_outputs(g, tag, 5 if flavour == 2 else 3)
     want_consumer = g.chance(8 if flavour == 2 else 4)
     if want_consumer:
         g.features.add(f"{tag}:consumed")
@@ -576,7 +595,7 @@ def _reshape(g):
     if _rare(g, 2):
         g.set_opset(13)
     dt = g.pick([F32, F32, I64, F64])
-    zero = _rare(g, 1)
+    zero = _rare(g, 3, 20)
     if zero:
         shape = g.pick([(2, 0), (0, 3), (2, 0, 3)])
         g.features.add(f"{tag}:zero_size")
@@ -591,10 +610,13 @@ def _reshape(g):
     if zero and form in ("minus1_concat", "head_concat", "shape_attr_concat"):
         form = "shape_of_x"
     tgt = None
+    force_allowzero = False
     if form == "shape_of_y":
         # second input of the same size, statically shaped (sometimes symbolic)
         if zero:
-            yshape = tuple(reversed(shape)) if g.chance(5) else shape
+            # a 0 in the target copies the input dim unless allowzero=1 -> the permuted target needs allowzero (opset >= 14)
+            force_allowzero = g.opset >= 14 and g.chance(5)
+            yshape = tuple(reversed(shape)) if force_allowzero else shape
         else:
             yshape = tuple(g.pick(_factorisations(size)))
         y = _x(g, [F32, I64], shape=yshape, sym=2, via_node=1)
@@ -662,7 +684,10 @@ def _reshape(g):
     if tgt is None:
         return None
     attrs = {}
-    if g.opset >= 14 and _rare(g, 3):
+    if force_allowzero:
+        attrs["allowzero"] = 1
+        g.features.add(f"{tag}:allowzero1")
+    elif g.opset >= 14 and _rare(g, 3):
         az = g.pick([0, 1])
         tv = np.asarray(tgt.arr).tolist()
         if az == 1 and 0 in tv and -1 in tv:
@@ -676,7 +701,7 @@ def _reshape(g):
     g.features.add(f"{tag}:{form}")
     g.features.add(f"{tag}:opset{'13' if g.opset < 14 else '14+'}")
     g.features.add(f"{tag}:out_rank{r[0].rank}")
-    _static_outputs(g, tag)
+    _static_outputs(g, tag, 4)
     if g.chance(7):
         g.features.add(f"{tag}:consumed")
         r2 = g.emit(g.pick(["Identity", "Abs"]), [r[0]])
